@@ -381,3 +381,30 @@ def hostnames_agreement_rule(ctx, rule):
     ck.expect(len(wattrs) == 1 and wattrs == rattrs, rule, am.qual, 'hostnames column <- URLInfo.parse(url).%s, the attribute SpanHostsFilter looks up' % '/'.join(sorted(rattrs)),
               'the table stores %s while the span-hosts filter looks up url_info.%s: for start URLs with a port, an IPv6 literal or credentials '
               'the two never agree, every URL counts as off-host and nothing is fetched' % (sorted(wattrs), '/'.join(sorted(rattrs))), am.loc())
+
+
+def prefilter_judges_child_rule(ctx, rule):
+    """ProcessingRule._process_scrape_info decides per scraped link whether it is queued.  The URL it asks the filters about
+    must be the link's own (the value whose .url is queued), not the page's: judged on the page's URL every link passes, the
+    table then stores the first reference of a URL whatever its kind (the hash order of a set decides whether a picture that is
+    also hyperlinked is fetched), and off-host links feed the host list a resumed run takes for its start hosts."""
+    import ast
+    from .. import util as U
+    from ..index import norm_text, walk_no_nested, AnalysisError
+    repo, ck = ctx.repo, ctx.check
+    ps = repo.func('wpull.processor.rule:ProcessingRule._process_scrape_info')
+    queued = set()
+    for c in U.calls(ps.node):
+        if U.attr_name(c) in ('add_child_url', 'child_url_record') and c.args:
+            a = c.args[0]
+            if isinstance(a, ast.Attribute) and a.attr == 'url' and isinstance(a.value, ast.Name):
+                queued.add(a.value.id)
+    judged = [c for c in U.calls(ps.node) if U.attr_name(c) in ('consult_filters', 'test', 'test_info') and c.args]
+    if not queued or not judged:
+        raise AnalysisError('_process_scrape_info: queued URL / filter consultation not recognised')
+    for c in judged:
+        a = c.args[0]
+        ok = isinstance(a, ast.Name) and a.id in queued
+        ck.expect(ok, rule, ps.qual, 'the filters are asked about the link being queued (%s)' % '/'.join(sorted(queued)),
+                  'the pre-filter judges `%s`, not the URL of the scraped link: every link of an accepted page passes, and the first '
+                  'reference of a URL (hyperlink or page requisite, in set order) decides how it is stored' % norm_text(a)[:60], ps.loc(c))
